@@ -39,6 +39,13 @@ NAV = {
 }
 
 
+# every keyword the grammar accepts where it says `identifier` (kw_as_identifier_1 .. 4), capitalised
+KWIDS = ['Across', 'Any', 'Assign', 'Assigner', 'Break', 'By', 'Class', 'Continue', 'Control', 'Create', 'Creator', 'Delete', 'Each',
+         'Event', 'For', 'From', 'Generate', 'In', 'Instances', 'Instance', 'Many', 'Object', 'One', 'Related', 'Relate', 'Select',
+         'Stop', 'To', 'Where', 'Unrelate', 'Using', 'Bridge', 'Cardinality', 'Empty', 'False', 'Not', 'Not_empty', 'Send',
+         'Transform', 'True', 'Of', 'Param', 'Rcvd_evt', 'Selected', 'Self', 'And', 'Elif', 'Else', 'If', 'Or', 'Return', 'While']
+
+
 def I(v):
     return {'t': 'int', 'v': str(v)}
 
@@ -577,8 +584,7 @@ class Gen(object):
         used as attribute, parameter, class, function and event names, rcvd_evt, nested index / field chains"""
         r = self.rnd
         E = lambda ty='int': self.expr(ty, 1)
-        kwid = lambda: r.choice(['From', 'Select', 'Each', 'Many', 'To', 'Bridge', 'Empty', 'Of', 'Self', 'Selected', 'And', 'If',
-                                 'Return', 'While', 'Not', 'Cardinality', 'Param', 'Delete', 'Across', 'Using', 'Where', 'One'])
+        kwid = lambda: r.choice(KWIDS)
         ps = lambda n=None: [{'n': r.choice(['p', 'q', kwid()]), 'e': E(r.choice(['int', 'bool', 'str']))}
                              for _ in range(r.randint(1, 3) if n is None else n)]
         ev = lambda **kw: dict({'id': r.choice(['A1', 'B2', 'E_3', kwid()]), 'poly': False, 'meaning': r.choice(['', "'go'", 'ready']),
@@ -629,6 +635,12 @@ class Gen(object):
                      'chain': [{'k': kwid(), 'rel': 'R1', 'ph': r.choice(['', 'precedes', "'a b'", kwid()])},
                                {'k': 'B', 'rel': r.choice(['R2', 'From']), 'ph': ''}],
                      'haswhere': True, 'w': Bin('>', Field({'t': 'selected'}, kwid()), E())}])
+        # every keyword that may stand for an identifier, as the class of a selection (with and without where clause; the
+        # renderer writes or drops the words `instances of`), of a creation, as attribute, function and parameter name
+        out.append([{'t': 'select_from', 'card': r.choice(['any', 'many']), 'v': 's%d' % j, 'k': w, 'haswhere': bool(j % 2),
+                     'w': Bin('==', Field({'t': 'selected'}, 'N'), I(j)) if j % 2 else B(True)} for j, w in enumerate(KWIDS)])
+        out.append([[{'t': 'create', 'v': 'c%d' % j, 'k': w}, Assign(Field(V('c%d' % j), w), I(j)),
+                     {'t': 'call', 'inv': {'t': 'fcall', 'n': w, 'ps': [{'n': w, 'e': I(j)}]}}][j % 3] for j, w in enumerate(KWIDS)])
         # parameters of both kinds, index and field chains
         pr = lambda w, n: {'t': 'param', 'w': w, 'n': n} if False else {'t': 'param', 'n': n}
         out.append([Assign({'t': 'index', 'h': {'t': 'index', 'h': V('m'), 'e': E()}, 'e': E()},
